@@ -83,7 +83,7 @@ pub struct GateSpec {
 }
 
 impl GateSpec {
-    fn rot_range(&self) -> (i32, i32) {
+    pub fn rot_range(&self) -> (i32, i32) {
         let mut lo = 0;
         let mut hi = 0;
         for e in &self.eqs {
